@@ -66,3 +66,19 @@ MANIFEST = {
     "note": "Trusted: Lean kernel + 3 standard axioms; harness/driver/check.py glue; tree-sitter (only supplies node ranges). Tabs are not indentation for the code (documented TODO) and so not for the spec. The computation of substring/replace/rewrite is outside this slice; Rust's Unicode case tables are trusted outside the alphabet of Model/StringCase.lean.",
     "technique": "Lean 4 proof over hand-written executable model, against an independent line-level specification + differential correspondence (hooks and public API, seeded) + implementation-side property oracles with witness replay",
 }
+
+
+# slice structural: the structural replacer (a parsed tree as replacement; library-only entry point)
+ENTRY["lean_modules"] += ["AstGrepVerif.Props.Structural"]
+ENTRY["theorems"] += ["AGV.Structural." + t for t in [
+    "structural_substitutes", "varEdits_valid", "collect_eq", "merge_eq_segments", "unbound_var_kept", "varBytes_none",
+    "empty_ellipsis_kept", "empty_ellipsis_kept_counterexample", "structural_eq_template_partial", "structural_eq_template_example",
+    "structural_ne_template_unbound_counterexample", "structural_ne_template_indent_counterexample", "structural_missing_abort_witness",
+    "structural_example"]]
+ENTRY["units"] += ["structural"]
+ENTRY["trusted_base"] += [
+    "slice structural — modelled, not verified: gen_replacement, collect_edits, merge_edits_to_vec, get_meta_var_replacement (replacer/structural.rs), impl Replacer for Root<D> (replacer.rs), get_var_bytes_impl (meta_var.rs); Node::next() is read as tree-sitter 0.25.3 ts_node_next_sibling (following siblings of zero width are passed over); the harness reads the environment of the match through the public API and hands it to the model as node ids of the dumped document; the replacement tree is dumped through the Node API (the parser is a parameter)",
+]
+ENTRY["assumptions"] += [
+    "structural_substitutes is proved for replacement trees with well-formed ranges (RangesWF), without MISSING tokens (NoMissing) and without zero-width nodes (PositiveWidth); the model itself covers them (kernel-checked witness structural_missing_abort_witness) and is compared with the code on such trees too; what the structural replacer does with unbound variables, empty `$$$` captures, `$` spellings in expando languages and variables whose node has named children differs from the template replacer (counter-example theorems) and is no clause of C07 (fix templates): measured by the unit (info ops), not judged",
+]
